@@ -347,6 +347,15 @@ pub fn dump_cfg(cfg: &Cfg, universe: &[u16]) -> Value {
         chv2.sort_by(|a, b| a.0.cmp(&b.0));
     }
     let chv2: Vec<Value> = chv2.into_iter().map(|x| x.1).collect();
+    // per participating key: the key lists of its chords in the parser's own order (KeyRepeat.tla: the chords-v2 arm of
+    // the KeyOutputs collection appends in this order)
+    let mut chv2_key_order = serde_json::Map::new();
+    if let Some(cv2) = l.chords_v2.as_ref() {
+        for (k, cfk) in cv2.chords().mapping.iter() {
+            let lists: Vec<Value> = cfk.chords.iter().map(|ch| json!(ch.participating_keys)).collect();
+            chv2_key_order.insert(k.to_string(), json!(lists));
+        }
+    }
     json!({
         "acts": d.acts,
         "layers": layers,
@@ -359,6 +368,7 @@ pub fn dump_cfg(cfg: &Cfg, universe: &[u16]) -> Value {
         "switch_max_key_timing": cfg.switch_max_key_timing,
         "has_chords_v2": l.chords_v2.is_some(),
         "chv2": chv2,
+        "chv2_key_order": chv2_key_order,
         "has_zippy": cfg.zippy.is_some(),
         // defseq trie: [{"k":[u16..],"x":row,"y":col}..] (SeqMode.tla Opts.seqtrie)
         "sequences": crate::seqtab::sequences_for_dump(cfg),
